@@ -10,6 +10,9 @@ from .. import sweepprops as S
 
 LEVEL = 'proof'
 NEEDS = ['CorrIdentifyGen', 'CorrIdentifyGenIM', 'PyRt', 'IdentifyGenLemmas', 'IdentifyGenConf', 'IdentifyGenIM', 'IdentifyGenConfProofs', 'IdentifyGenIMProofs', 'InstrumentsGen', 'SFIdentify', 'Extracted', 'SourceFacts', 'Base', 'Digraph', 'DigraphProofs', 'Identify', 'IdentifyProofs', 'DSep', 'DSepProofs', 'CorrDag']
+# the code translated from the source on every run: when the translator REFUSES the current source the run falls back to the
+# hand-written model and its correspondence (harness/main.py)
+GEN_SOFT = dict(generated=['IdentifyGenConf', 'IdentifyGenIM'], modules=['CorrIdentifyGenIM', 'IdentifyGenConf', 'IdentifyGenIM', 'IdentifyGenConfProofs', 'IdentifyGenIMProofs'])
 
 WORKER = r'''
 import sys, json, logging
